@@ -371,3 +371,43 @@ func Diff(a, b geom.Geom, bits bool) string {
 	}
 	return ""
 }
+
+// FinitePatterns are the finite float64 values used by the text codecs' checks:
+// values needing 17 significant digits, exponent notation boundaries,
+// subnormals, signed zero, extremes.
+var FinitePatterns = []float64{
+	math.Copysign(0, -1), 5e-324, 2.2250738585072014e-308, 0.1, 1.0 / 3.0, 1e21, 1e20,
+	1e-7, 123456789.12345678, math.MaxFloat64, -math.MaxFloat64, 9007199254740994, 1e-6, -1.5,
+	0.30000000000000004, 1e19, 9.223372036854775807e18, 100, 0,
+}
+
+// FirstMemberNonEmpty reports whether the first member (recursively) of s has
+// at least one vertex; AllMembersNonEmpty whether every member has.
+func FirstMemberNonEmpty(s Skel) bool {
+	switch s.Kind {
+	case KPoint, KBounds:
+		return true
+	case KMultiPoint, KLineString, KRing:
+		return s.N > 0
+	}
+	return len(s.Kids) > 0 && FirstMemberNonEmpty(s.Kids[0])
+}
+
+// AllMembersNonEmpty reports whether every member (recursively) has a vertex.
+func AllMembersNonEmpty(s Skel) bool {
+	switch s.Kind {
+	case KPoint, KBounds:
+		return true
+	case KMultiPoint, KLineString, KRing:
+		return s.N > 0
+	}
+	if len(s.Kids) == 0 {
+		return false
+	}
+	for _, k := range s.Kids {
+		if !AllMembersNonEmpty(k) {
+			return false
+		}
+	}
+	return true
+}
